@@ -38,6 +38,7 @@ func FuzzVerifC14(f *testing.F) {
 		if len(in) > 1<<16 {
 			return
 		}
+		in = exact(in) // the fuzzing engine's buffers have spare capacity: hand the decoders one without
 		runtime.ReadMemStats(&ms)
 		a0 := ms.TotalAlloc
 		what := "frame reader"
